@@ -70,6 +70,8 @@ func C17(c *Ctx) {
 	c.R.Rule("C17-R7", "E3", "every installed emitter delivers the message at most once", 3)
 	c.shareRule("C15", "C15-R13", "C17-R10", "the set of pending timers that is reported is the set that is pending: every add, cancel and firing is followed by Timers.changed()")
 	c.shareRule("C15", "C15-R1", "C17-R9", "the single-loop host restores the timers machine as it reported it (its state goes through SetMachine)")
+	c.R.Rule("C17-R11", "E3+E4", "the multi-request host tests an id and files its entry in one critical section", 1)
+	c17AddAtomic(c, "C17-R11")
 	c.R.Rule("C17-R8", "E5+E7", "a request-scoped context never reaches the creation of a timer", 1)
 	impls := []timerImpl{
 		{"mcrew", "cmd/mcrew", "Timers", "timers", "emit", "TimerEntry", "At", "cmd/mcrew.Timers.Mutex"},
